@@ -424,7 +424,7 @@ def run_matcher_rules(ck, repo, thorough=False):
             out.append(parents_[n])
             n = parents_[n]
         return out
-    cy_ifs = [n for n in ast.walk(gm.node) if isinstance(n, ast.If) and src(n.test) == '_cython']
+    cy_ifs = [n for n in ast.walk(gm.node) if isinstance(n, ast.If) and src(n.test) in ('_cython', 'not _cython')]
     resets = {'components': [], 'get_mapping': []}
     binds = {'components': [], 'get_mapping': []}
     for n in ast.walk(gm.node):
@@ -437,12 +437,14 @@ def run_matcher_rules(ck, repo, thorough=False):
     ok_fb = len(cy_ifs) == 1
     if ok_fb:
         ci = cy_ifs[0]
+        # the branch taken when the compiled matcher is requested / not requested, whichever way round the test is written
+        cy_body, fb_body = (ci.body, ci.orelse) if src(ci.test) == '_cython' else (ci.orelse, ci.body)
         top = strip_doc_(gm.node.body)
         for name in resets:
             dominating = any(r in top and top.index(r) < top.index(ci) for r in resets[name] if ci in top)
-            in_else = any(any(r is x or r in list(ast.walk(x)) for x in ci.orelse) for r in resets[name])
+            in_else = any(any(r is x or r in list(ast.walk(x)) for x in fb_body) for r in resets[name])
             in_handler = any(any(isinstance(c, ast.ExceptHandler) and c.type is not None and 'ImportError' in src(c.type) for c in chain(r)) for r in resets[name])
-            guarded = all(ci in chain(b) and any(isinstance(c, ast.Try) for c in chain(b)) for b in binds[name]) and bool(binds[name])
+            guarded = all(any(b is y for x in cy_body for y in ast.walk(x)) and any(isinstance(c, ast.Try) for c in chain(b)) for b in binds[name]) and bool(binds[name])
             ok_fb = ok_fb and guarded and (dominating or (in_else and in_handler))
     ck.decide(ok_fb, R, 'fallbacks', {k: len(v) for k, v in resets.items()},
               'the two fallbacks (ImportError, _cython=False) no longer both reach the shared driver with components = get_mapping = None', file=gm.file, line=gm.lineno)
